@@ -48,6 +48,12 @@ TARGETED = [
     ("in_generic", {"main.ddp": "Die generische Funktion g mit dem Parameter a vom Typ T, gibt eine Zahl zurück, macht:\n\tGib a plus 1 zurück.\nUnd kann so benutzt werden:\n\t\"g <a>\"\n\n\nDie Zahl z ist g \"text\".\n"}),
     ("in_generic_import", {"main.ddp": 'Binde "a" ein.\n\nDie Zahl z ist g "text".\n', "a.ddp": "\n\n\n\n\n\nDie öffentliche generische Funktion g mit dem Parameter a vom Typ T, gibt eine Zahl zurück, macht:\n\tGib a plus 1 zurück.\nUnd kann so benutzt werden:\n\t\"g <a>\"\n"}),
     ("in_generic_import_long", {"main.ddp": 'Binde "a" ein.\nDie Zahl z ist g "text".\n', "a.ddp": "\n" * 30 + "Die öffentliche generische Funktion g mit dem Parameter a vom Typ T, gibt eine Zahl zurück, macht:\n\tGib                                                                 a plus 1 zurück.\nUnd kann so benutzt werden:\n\t\"g <a>\"\n"}),
+    ("forward_never_defined", {"main.ddp": 'Binde "Duden/Ausgabe" ein.\nDie Funktion verdopple mit dem Parameter n vom Typ Zahl, gibt eine Zahl zurück,\nwird später definiert\nund kann so benutzt werden:\n\t"das Doppelte von <n>"\n\nSchreibe "x" auf eine Zeile.\n'}),
+    ("forward_never_defined_used", {"main.ddp": 'Die Funktion verdopple mit dem Parameter n vom Typ Zahl, gibt eine Zahl zurück,\nwird später definiert\nund kann so benutzt werden:\n\t"das Doppelte von <n>"\n\nDie Zahl z ist das Doppelte von 2.\n'}),
+    ("forward_never_defined_import", {"main.ddp": 'Binde "a" ein.\nDie Zahl z ist 1.\n', "a.ddp": 'Die öffentliche Funktion verdopple mit dem Parameter n vom Typ Zahl, gibt eine Zahl zurück,\nwird später definiert\nund kann so benutzt werden:\n\t"das Doppelte von <n>"\n'}),
+    ("forward_defined_twice", {"main.ddp": 'Die Funktion f gibt eine Zahl zurück,\nwird später definiert\nund kann so benutzt werden:\n\t"ff"\nDie Funktion f macht:\n\tGib 1 zurück.\nDie Funktion f macht:\n\tGib 2 zurück.\n'}),
+    ("forward_defined_ok", {"main.ddp": 'Die Funktion f gibt eine Zahl zurück,\nwird später definiert\nund kann so benutzt werden:\n\t"ff"\nDie Funktion f macht:\n\tGib 1 zurück.\nDie Zahl z ist ff.\n'}),
+    ("last_error_only_at_eof_validation", {"main.ddp": 'Die Zahl a ist 1.\nDie Funktion g gibt nichts zurück,\nwird später definiert\nund kann so benutzt werden:\n\t"gg"\n'}),
     ("missing_import", {"main.ddp": 'Binde "nix" ein.\n'}),
     ("cycle", {"main.ddp": 'Binde "a" ein.\n', "a.ddp": 'Binde "main" ein.\n'}),
     ("invalid_utf8", {"main.ddp": b"Die Zahl x ist \xff.\n"}),
